@@ -452,16 +452,17 @@ prop(
     level="other",
     design_ref="DESIGN.md section 3, C18",
     groups=[(["./cfg"], r"^(ParseFieldSelector|ParseNestedFields|ParseNestedFields\$1)$"),
-            (["./plugin/action/keep_fields"], r"^\(\*Plugin\)\.traverseFieldsTree$")],
+            (["./plugin/action/keep_fields"], r"^\(\*Plugin\)\.traverseFieldsTree$"),
+            (["./plugin/action/remove_fields", "./pipeline"], r"^\(\*Plugin\)\.Do$")],
     claim=(
         "Path-list normalisation and the keep_fields buffer protocol under contract: ParseFieldSelector is panic-free for every selector; ParseNestedFields drops a path exactly when an earlier, not longer path is an element-wise prefix of it "
         "(oracle on slices.Equal: compared as path elements, never as joined strings, after a length sort whose comparator is verified) and keeps it otherwise - listing a path and a descendant equals listing the path alone; "
         "keep_fields.traverseFieldsTree, with a ghost height of the path tree as the recursion's measure, indexes its per-depth delete buffers in range, leaves every buffer from its own depth downwards empty on return "
-        "(nothing leaks into the next sibling or the next event) and never changes the number of buffers."
+        "(nothing leaks into the next sibling or the next event) and never changes the number of buffers; a field of the event goes on the delete list only if it is not a child of the path node or it is an inner path node under which the recursive walk found no configured target. "
+        "remove_fields.Do looks up exactly the configured (de-duplicated) paths, each once and in order, removes what each lookup returns, calls nothing else on the event and leaves non-object roots alone."
     ),
     undecided=[
         "the tree walk against 'project / subtract exactly these paths' (which fields survive, key order, types): the event is an insane-json graph mutated by Suicide (third-party) - not applicable to contracts on file.d code",
-        "remove_fields.Do (Dig + Suicide per path)",
         "that the tree built in Start has height <= the number of buffers (map-based construction; assumed as the height data invariant)",
     ],
     assumptions=["sort.Slice orders by its comparator (callee clause)", "children of a path-tree node are strictly lower (assumed at the map lookup)", "insane-json Dig / Suicide do not touch the plugin's buffers"],
